@@ -118,7 +118,9 @@ MANIFEST = {
     "commits f9e33c1 and 7c8aeda, extended by 7121677 (operands that read mutable state or use operators) 6f37109 (old value of `xs[i] op= <lifted rhs>`) and 2bb14bb (a stored operand takes the effectful operands to its left with it), and the model follows the repaired builder) the built CFG, executed block by block (successor 1 on a true predicate), halts in the exit block with the same return value, "
     "the same trace of external calls and the same user-variable values as Python's big-step semantics of the source "
     "(by induction on the big-step derivation; termination-insensitive); every block has at most two "
-    "successors and two only with a branch predicate; every non-entry block has a predecessor over a real or dummy edge "
+    "successors and two only with a branch predicate; inside the body of a self-recursive non-capturing nested function its name resolves "
+    "to the nested function whatever the module namespace defines under that name (nested_recursion_resolves_to_itself, model of "
+    "Globals.__getitem__ / check_nested_func_def tied by tie_scope on the real Globals objects); every non-entry block has a predecessor over a real or dummy edge "
     "(nonentry_block_has_pred); break/continue target the innermost loop; after pruning no real edge leads "
     "from unreachable into reachable code and dummy edges only reach unreachable blocks; the reachable flags are exactly graph "
     "reachability from the entry; block wiring of compiler/cfg_compiler.py (compile_bb / sort_vars / choose_vars_for_tuple_sum / "
@@ -1547,6 +1549,7 @@ def tie(ctx, profile=Profile):
     if profile.pid == "C03":
         tie_wiring(ctx)
         tie_probes(ctx)
+        tie_scope(ctx)
         tie_hugr_exec(ctx, "C03")
 
 
@@ -2175,6 +2178,183 @@ def tie_wiring(ctx, n=None, use_model=True):
 
 
 # ============================================================================ end-to-end execution (c03_hugr.py): lowered HUGR vs CPython
+
+
+# ============================================================================ name resolution of nested functions (Model/Scope.lean)
+
+SCOPE_SRC = [
+    # (source, entry functions): module-level functions with nested non-capturing functions, self-recursive or not, named like a
+    # module-level function / a builtin / fresh
+    ("""@guppy
+def count(n: int) -> int:
+    return 100 + n
+
+@guppy
+def halve(n: int) -> int:
+    return n // 2
+
+@guppy
+def main(n: int) -> int:
+    def count(k: int) -> int:
+        if k <= 0:
+            return 0
+        return k + count(k - 1)
+    def fresh(k: int) -> int:
+        if k <= 0:
+            return halve(k)
+        return fresh(k - 1) + halve(k)
+    def triple(k: int) -> int:
+        return k * 3
+    return count(n) + fresh(n) + triple(n)
+
+@guppy
+def other(n: int) -> int:
+    def abs(k: int) -> int:
+        if k <= 0:
+            return halve(k)
+        return abs(k - 2) + 1
+    def len_(k: int) -> int:
+        def count(j: int) -> int:
+            if j <= 0:
+                return 1
+            return j * count(j - 1)
+        return count(k % 4)
+    return abs(n) + len_(n) + count(n)
+""", ["main", "other"]),
+]
+
+
+def _scope_sx(ns: dict, pool, ids, objs) -> str:
+    from guppylang.defs import GuppyDefinition
+
+    out = []
+    for n in pool:
+        if n in ns:
+            v = ns[n]
+            if isinstance(v, GuppyDefinition):
+                out.append(f"({n} d {ids.setdefault(v.id, len(ids) + 1)})")
+            else:
+                objs.append(v)
+                out.append(f"({n} p {len(objs)})")
+    return " ".join(out)
+
+
+def tie_scope(ctx):
+    """`Globals.__getitem__` and the scope `check_nested_func_def` builds for the body of a nested function vs Lean
+    `Scope.lookup` / `Scope.bindNested` (Model/Scope.lean; theorem nested_recursion_resolves_to_itself): the real `check_cfg` is
+    wrapped while real module-level functions with nested functions are checked; for every nested body the `Globals` object it is
+    checked with is compared, name by name, with the model's lookup in the enclosing function's namespaces (+ the nested binding)."""
+    import feed
+    import guppylang_internals.checker.func_checker as fc
+    from guppylang_internals.checker.core import Globals, PythonObject
+    from guppylang_internals.error import InternalGuppyError
+
+    t0 = time.time()
+    st = {"programs": 0, "nested_bodies": 0, "self_recursive_rebound": 0, "lookups": 0, "mismatches": 0, "shadowing_a_global": 0}
+    sources = list(SCOPE_SRC)
+    try:
+        sys.path.insert(0, os.path.dirname(os.path.abspath(__file__)))
+        import random
+
+        import c03_hugr
+
+        rng = random.Random(f"scope:{ctx.seed}")
+        for _ in range(ctx.n(6, 60)):
+            src, ents, feat = c03_hugr.gen_exec_program(rng, "C03", small=True, focus="nested")
+            if feat.get("nested_defs"):
+                sources.append((src, [e[0] for e in ents]))
+    except Exception as e:  # noqa: BLE001
+        ctx.broke(f"harness: tie_scope could not generate programs: {type(e).__name__}: {e}")
+    real_check_cfg, real_nested = fc.check_cfg, fc.check_nested_func_def
+    lines, expect = [], []
+    for src, entries in sources:
+        try:
+            m = feed.load(src)
+        except Exception as e:  # noqa: BLE001
+            ctx.broke(f"harness: tie_scope program does not load: {type(e).__name__}: {e}")
+            continue
+        st["programs"] += 1
+        try:
+            for fn in entries:
+                rec, stack = [], []
+
+                def wrapped(cfg, inputs, return_ty, generic_params, func_name, globals, *a, _rec=rec, _st=stack, **k):
+                    if _st and _st[-1][0] == func_name and not _st[-1][2]:
+                        _st[-1][2].append(1)
+                        _rec.append((func_name, _st[-1][1], globals))
+                    return real_check_cfg(cfg, inputs, return_ty, generic_params, func_name, globals, *a, **k)
+
+                def wrapped_nested(func_def, bb, ctx_, *a, _st=stack, **k):
+                    _st.append((func_def.name, ctx_.globals, []))
+                    try:
+                        return real_nested(func_def, bb, ctx_, *a, **k)
+                    finally:
+                        _st.pop()
+
+                fc.check_cfg, fc.check_nested_func_def = wrapped, wrapped_nested
+                patched = []
+                for modname in ("guppylang_internals.checker.stmt_checker", "guppylang_internals.checker.expr_checker"):
+                    mod = sys.modules.get(modname)
+                    if mod is not None and getattr(mod, "check_nested_func_def", None) is real_nested:
+                        mod.check_nested_func_def = wrapped_nested
+                        patched.append(mod)
+                try:
+                    kind, exc = feed.check_outcome(getattr(m, fn))
+                finally:
+                    fc.check_cfg, fc.check_nested_func_def = real_check_cfg, real_nested
+                    for mod in patched:
+                        mod.check_nested_func_def = real_nested
+                if kind != "ok":
+                    # a legal program (CPython runs it): rejected only if name resolution went wrong
+                    ctx.violation("input:" + src + "|" + fn, f"legal program with nested functions rejected by the checker "
+                                  f"({feed.err_class(exc)}); source:\n{src}", {"source": src, "function": fn, "error": feed.err_class(exc)})
+                    continue
+                if not rec:
+                    continue
+                tree = ast.parse(src)
+                pool = sorted({n.name for n in ast.walk(tree) if isinstance(n, ast.FunctionDef)} | {"abs", "len", "int", "range", "zz_undefined"})
+                blt_real = Globals.builtin_defs()
+                for name, g0, g1 in rec:
+                    st["nested_bodies"] += 1
+                    ids, objs = {}, []
+                    loc = _scope_sx(g0.f_locals, pool, ids, objs)
+                    glob = _scope_sx(g0.f_globals, pool, ids, objs)
+                    blt = " ".join(f"({n} {ids.setdefault(blt_real[n].id, len(ids) + 1)})" for n in pool if n in blt_real)
+                    rebound = g1 is not g0
+                    st["self_recursive_rebound"] += rebound
+                    st["shadowing_a_global"] += rebound and (name in g0.f_locals or name in g0.f_globals)
+                    for x in pool:
+                        try:
+                            r = g1[x]
+                            if isinstance(r, PythonObject):
+                                k = next((i + 1 for i, o in enumerate(objs) if o is r.obj), None)
+                                real = f"py {k}" if k else "py ?"
+                            else:
+                                real = f"defn {ids[r.id]}" if r.id in ids else "defn 999"  # 999: a definition unknown to the frame
+                        except InternalGuppyError:
+                            real = "missing"
+                        lines.append(f"(scope {'l' if rebound else '-'} {name} 999 {x} (loc {loc}) (glob {glob}) (blt {blt}))")
+                        expect.append((src, fn, name, x, real))
+        finally:
+            feed.unload(m)
+    st["real_side_s"] = round(time.time() - t0, 2)
+    replies = ctx.driver(DRIVER, lines) if lines else []
+    st["driver_s"] = round(time.time() - t0 - st["real_side_s"], 2)
+    bad = None
+    for (src, fn, name, x, real), rep in zip(expect, replies):
+        st["lookups"] += 1
+        ctx.count({"source": src, "fn": fn, "nested": name, "name": x}, x == name, "scope:" + real.split()[0])
+        if rep.strip() != real:
+            st["mismatches"] += 1
+            bad = bad or (src, fn, name, x, real, rep.strip())
+    if bad:
+        src, fn, name, x, real, rep = bad
+        ctx.broke(f"model: inside nested function `{name}` of `{fn}` the name `{x}` resolves to `{real}` in the real checker's scope "
+                  f"but to `{rep}` in Scope.lookup / bindNested; source:\n{src}")
+        search(ctx, ["scope: nested-function name resolution differs from the model"])
+    st["wall_s"] = round(time.time() - t0, 2)
+    ctx.extra["scope"] = st
+    return st
 
 
 def tie_hugr_exec(ctx, pid="C03", n=None, budget_s=None):
